@@ -40,7 +40,7 @@ COMPONENTS = {"real": ["twisted.internet.task.LoopingCall (start/stop/reset/__ca
                        "twisted.internet.task.Clock (jump family)", "twisted.internet.defer.Deferred/maybeDeferred"],
               "stub": ["time source: detsim SimClock (exact and jump modes) or task.Clock, advanced by the tape"]}
 RULE = ("run = one LoopingCall (dyadic interval, now flag, plain/withCount, clock family drawn) driven by 5..40 tape-chosen operations "
-        "(clock step of a sub-interval / exact-interval / many-interval amount, run next timer, fire or fail the outstanding Deferred, stop, reset, restart); "
+        "(clock step of a sub-interval / exact-interval / many-interval amount, run next timer, fire or fail the outstanding Deferred, stop, reset, restart - from the top level or from inside the callback of the previous start()'s Deferred); "
         "each call's behaviour (return, raise, fired Deferred, Deferred with timer latency, hand-fired Deferred, stop from inside) is drawn when it happens; "
         "non-trivial = at least 2 calls AND (a completion off the boundary grid, a clock overshoot, a stop or a reset occurred)")
 ASSUMPTIONS = ["interval > 0 and all times are dyadic rationals (exact in binary floating point), as in the statement's quantifier",
@@ -281,6 +281,13 @@ def run(sim):
             results.append(("lc",))
         else:
             results.append(("other", repr(res)))
+        r = st.pop("restart_in_cb", None)
+        if r is not None:
+            # the application restarts the loop from inside the callback of the previous start()'s Deferred
+            sim.probe("restart_from_start_deferred_callback")
+            st["restarts"] += 1
+            m.grid_stable = False
+            do_start(*r)
         return None
 
     def do_start(ival, now):
@@ -357,9 +364,12 @@ def run(sim):
             sim.event("stop", clk.seconds())
             if m.outstanding:
                 sim.probe("stop_while_outstanding")
+            if not m.outstanding and not counted and sim.draw_bool(0.3, "restart_from_callback"):
+                st["restart_in_cb"] = (sim.draw_choice(INTERVALS, "interval2"), sim.draw_bool(0.5, "now2"))
             m.stop()
             with sim.guard("no-raise", "stop"):
                 lc.stop()
+            st.pop("restart_in_cb", None)
         elif op == "reset":
             st["resets"] += 1
             sim.event("reset", clk.seconds())
